@@ -529,4 +529,58 @@ Section Kraus.
     destruct o, o'; cbn [op_same]; intro H; try (rewrite H; reflexivity); try discriminate H; try contradiction; try reflexivity.
     destruct H as (-> & _). reflexivity.
   Qed.
+
+  (* ---- every recorded measurement lane exists, and there is one recorded lane per record bit ---- *)
+  Definition kinv (t : kst) : Prop := List.length (krecq t) = knrec t /\ Forall (fun q => kex t q = true) (krecq t).
+  Lemma kinv_setpsi t p : kinv t -> kinv (ksetpsi t p). Proof. intro H; exact H. Qed.
+  Lemma kinv_setk t k : kinv t -> kinv (ksetk t k). Proof. intro H; exact H. Qed.
+  Lemma kinv_setcol t q c : kinv t -> kinv (ksetcol t q c). Proof. intro H; exact H. Qed.
+  Lemma kinv_fail t : kinv t -> kinv (kfail t). Proof. intro H; exact H. Qed.
+  Lemma kinv_setex t q : kinv t -> kinv (ksetex t q).
+  Proof.
+    intros [H1 H2]. split; [exact H1|]. cbn [krecq kex ksetex]. rewrite Forall_forall in *. intros x Hx. unfold fupd.
+    destruct (Nat.eqb x q); [reflexivity | apply H2; exact Hx].
+  Qed.
+  Lemma kinv_cnt_same t ns ne nc : kinv t -> kinv (kcnt t (knrec t) ns ne nc (krecq t)). Proof. intro H; exact H. Qed.
+  Lemma kinv_ensure t q : kinv t -> kinv (kensure t q).
+  Proof. intro H. unfold kensure. destruct (kex t q); [exact H|]. apply kinv_setcol, kinv_setex, kinv_setk. exact H. Qed.
+  Lemma kensure_ex t q : kex (kensure t q) q = true.
+  Proof. unfold kensure. destruct (kex t q) eqn:Eq; [exact Eq|]. cbn [kex ksetcol ksetex ksetk]. unfold fupd. rewrite Nat.eqb_refl. reflexivity. Qed.
+  Lemma kinv_do_meas b t q silent : kinv t -> kinv (kdo_meas b t q silent).
+  Proof.
+    intro H. unfold kdo_meas. pose proof (kinv_ensure t q H) as He. pose proof (kensure_ex t q) as Hex.
+    set (u := kensure t q) in *. destruct He as [H1 H2]. destruct silent; unfold kinv, kcnt, ksetcol, ksetk, ksetpsi; cbn [knrec krecq kex].
+    - split; assumption.
+    - split; [rewrite app_length, H1; cbn; lia | apply Forall_app; split; [exact H2 | constructor; [exact Hex | constructor]]].
+  Qed.
+  Lemma kinv_do_err b t c q idx : kinv t -> kinv (kdo_err b t c q idx).
+  Proof. intro H. unfold kdo_err. apply kinv_setcol. destruct (bit (berr b) idx); [apply kinv_setpsi|]; apply kinv_ensure; exact H. Qed.
+  Lemma kinv_fold f b : (forall o t, kinv t -> kinv (kstep f b t o)) -> forall body t, kinv t -> kinv (fold_left (kstep f b) body t).
+  Proof. intros IH body. induction body as [|o body IHb]; intros t H; cbn [fold_left]; [exact H | apply IHb, IH, H]. Qed.
+  Theorem kinv_step b fuel : forall o t, kinv t -> kinv (kstep fuel b t o).
+  Proof.
+    induction fuel as [|f IHf]; intros o t H.
+    all: destruct o as [c q e | c q rel corr | q | is_cx ctl tgt cc | a c | q | q p silent restore | q trace | e | k | ch | k | p | q body |]; cbn [kstep].
+    all: try (apply kinv_setcol, kinv_setpsi, kinv_ensure; exact H).
+    all: try (apply kinv_do_err; exact H).
+    all: try (apply kinv_setpsi, kinv_ensure; exact H).
+    all: try (apply kinv_ensure; exact H).
+    all: try exact H.
+    all: try (apply kinv_fail; exact H).
+    all: try match goal with |- context [sw4] => apply kinv_setcol, kinv_setcol, kinv_setpsi, kinv_ensure, kinv_ensure; exact H end.
+    all: try match goal with |- kinv (kfinalize _) => unfold kfinalize; destruct (kncorr t); exact H end.
+    all: try match goal with |- context [Qcompare 0 ?pp] =>
+      destruct (Qcompare 0 pp); cbv zeta; try (apply kinv_do_meas; exact H);
+      match goal with |- kinv (kcnt ?u _ _ _ _ _) => assert (Hu : kinv u) by (destruct restore; [apply kinv_do_err|]; apply kinv_do_meas, kinv_do_err; exact H); exact Hu end end.
+    all: try match goal with |- context [cutf] =>
+      destruct (negb (kex t q)); [apply kinv_setcol, kinv_setex; exact H|]; cbv zeta; apply kinv_setcol;
+      match goal with |- kinv (match kcol ?u ?qq with _ => _ end) => assert (Hu : kinv u) by (destruct trace; [apply kinv_do_meas|]; exact H); destruct (kcol u qq); apply kinv_setpsi; exact Hu end end.
+    all: try match goal with |- context [fold_left] => destruct (kex t q); [apply (kinv_fold f b IHf); exact H | exact H] end.
+    all: destruct cc as [[c0 c1]|]; [|apply kinv_setcol, kinv_setcol, kinv_setpsi, kinv_ensure, kinv_ensure; exact H].
+    all: destruct c0, c1, is_cx; cbn [andb negb]; try (apply kinv_fail; exact H);
+      try (apply kinv_setcol, kinv_setcol, kinv_setpsi, kinv_ensure, kinv_ensure; exact H);
+      (apply kinv_setcol, kinv_setcol; match goal with |- context [bit (brec ?bb) ?i] => destruct (bit (brec bb) i) end; [apply kinv_setpsi | idtac]; apply kinv_ensure, kinv_ensure; exact H).
+  Qed.
+  Theorem kinv_run b ops t : kinv t -> kinv (krun b ops t).
+  Proof. intro H. unfold krun. apply (kinv_fold 8 b (kinv_step b 8)). exact H. Qed.
 End Kraus.
